@@ -368,6 +368,17 @@ func (e *Exec) check(extra *Term, timeout int, vars []*Term) (SatResult, map[str
 	return r, m
 }
 
+// checkObl decides an obligation; an `unknown` (time limit - on a loaded machine a solver process can be starved) is
+// asked once more with three times the limit before the path is given up as inconclusive.
+func (e *Exec) checkObl(q *Term) (SatResult, map[string]uint64) {
+	r, m := e.check(q, e.P.cfg.OblTimeoutMs, e.pathVars)
+	if r == Unknown {
+		e.stats.Unknowns--
+		r, m = e.check(q, 3*e.P.cfg.OblTimeoutMs, e.pathVars)
+	}
+	return r, m
+}
+
 func (e *Exec) curDec() *decider {
 	if e.local != nil {
 		return e.local
@@ -598,7 +609,7 @@ func (e *Exec) reportIfSat(fr *frame, bad *Term, kind, label string) bool {
 	found := false
 	q := e.ctx.And(bad, e.ctx.Not(knownOr))
 	if !(q.Op == OpConst && q.K == 0) {
-		r, model := e.check(q, e.P.cfg.OblTimeoutMs, e.pathVars)
+		r, model := e.checkObl(q)
 		switch r {
 		case Sat:
 			e.addViolation(fr, kind, label, "", model)
@@ -617,7 +628,7 @@ func (e *Exec) reportIfSat(fr *frame, bad *Term, kind, label string) bool {
 		if qk.Op == OpConst && qk.K == 0 {
 			continue
 		}
-		r, model := e.check(qk, e.P.cfg.OblTimeoutMs, e.pathVars)
+		r, model := e.checkObl(qk)
 		if r == Sat {
 			e.addViolation(fr, kind, label, tag, model)
 			found = true
